@@ -459,25 +459,20 @@ class Parser:
 
     def parse_function_extension(self, stream: TokenStream) -> Expression:
         function_arguments: List[Expression] = []
+        parenthesized_arguments: List[int] = []
         tok = stream.next_token()
 
         while stream.current.type_ != TokenType.RPAREN:
-            try:
-                func = self.function_argument_map[stream.current.type_]
-            except KeyError as err:
-                raise JSONPathSyntaxError(
-                    f"unexpected {stream.current.value!r}",
-                    token=stream.current,
-                ) from err
+            # An argument is a literal, a query, a function call or any other
+            # logical expression, including parenthesized and negated ones.
+            grouped = stream.current.type_ == TokenType.LPAREN
+            expr = self.parse_filter_expression(stream)
 
-            expr = func(stream)
-
-            # The argument could be a comparison or logical expression
-            peek_kind = stream.peek.type_
-            while peek_kind in self.BINARY_OPERATORS:
-                stream.next_token()
-                expr = self.parse_infix_expression(stream, expr)
-                peek_kind = stream.peek.type_
+            if grouped and isinstance(
+                expr, (FilterExpressionLiteral, FilterQuery, FunctionExtension)
+            ):
+                # `(@.a)` is a logical expression, not a query or a value.
+                parenthesized_arguments.append(len(function_arguments))
 
             function_arguments.append(expr)
 
@@ -488,13 +483,18 @@ class Parser:
 
             stream.next_token()
 
-        return FunctionExtension(
-            token=tok,
-            name=tok.value,
-            args=self.env.validate_function_extension_signature(
-                tok, function_arguments
-            ),
-        )
+        args = self.env.validate_function_extension_signature(tok, function_arguments)
+
+        func = self.env.function_extensions.get(tok.value)
+        if isinstance(func, FilterFunction):
+            for idx in parenthesized_arguments:
+                if func.arg_types[idx] != ExpressionType.LOGICAL:
+                    raise JSONPathTypeError(
+                        f"{tok.value}() argument {idx} must not be parenthesized",
+                        token=tok,
+                    )
+
+        return FunctionExtension(token=tok, name=tok.value, args=args)
 
     def parse_filter_expression(
         self, stream: TokenStream, precedence: int = PRECEDENCE_LOWEST
